@@ -1,7 +1,8 @@
 /-
 Driver commands of property C02 (core Lean only).  Command names start with "c02.".
 
-  c02.run <blocks> <ops>
+  c02.run <blocks> <ops>      the reader model with the repaired txOffset (Model/BgzfReader64.lean: `run64`; equal to
+                              `Reader.run` when every payload is below 65536 bytes, `run64_eq_run`)
      blocks = `len:csize:seed` joined by ','   (payload byte j of a block = (seed + j + (j/256)*13) % 256, or for seed ≥ 1000 the low byte of an integer hash of uint32(seed*31+j))
               or `x<hex>:csize` for an explicit payload
      ops    = joined by ',':  r<n> (Read of n bytes) | b (ReadByte) | s<file>.<block> (Seek) | B1 | B0 (Blocked)
@@ -10,7 +11,7 @@ Driver commands of property C02 (core Lean only).  Command names start with "c02
   c02.flat <blocks> <ops>   the same history through the flat specification (Hts.Spec.Flat)
 -/
 import Hts.Drv.Util
-import Hts.Model.BgzfReader
+import Hts.Model.BgzfReader64
 import Hts.Drv.C02Lts
 namespace Hts.Drv.C02
 open Hts.Drv Hts.Model.Bgzf Hts.Spec.Flat
@@ -84,7 +85,7 @@ def runModel (f : File) (ops : List Op) : String :=
   match Reader.new f with
   | .error e => "new:" ++ errClass (some e)
   | .ok r =>
-    ";".intercalate ((r.run ops).map fun (o, r') => showRes o.bytes o.err r'.lastChunk r'.blockLen)
+    ";".intercalate ((r.run64 ops).map fun (o, r') => showRes o.bytes o.err r'.lastChunk r'.blockLen)
 
 /-- The same history through the flat specification (`Hts.Spec.Flat.run`); BlockLen is not part of it. -/
 def showObs (o : Obs) : String :=
